@@ -135,7 +135,7 @@ Emit ==
   /\ pc' = "emitted"
   /\ UNCHANGED <<W, start, kc, A0, A1, nl, cur, m, knm0, knm1, km0, km1, order, pos, flag, h, qs, res, hist>>
 
-Next == \/ \E p \in Perms(nl) : BeginSweep(p)
+Next == \/ (pc = "sweep" /\ \E p \in Perms(nl) : BeginSweep(p))   \* guard first: Perms is costly
         \/ \E mb \in 1..nl : VisitTo(mb)
         \/ EndSweep \/ Aggregate \/ Emit
 Spec == Init /\ [][Next]_vars
